@@ -46,6 +46,17 @@ pub fn run(ctx: &Ctx) -> Outcome {
         out.violations.extend(findings_to_violations(scn, &r.findings, &judge));
         out.parts.push(p);
     }
+    // clause 3: wake-ups / immediacy / no deadlock, in every state of the flow and close drivers (solo)
+    {
+        use super::solo_drivers::*;
+        let d = ctx.tier.pick(6, 8);
+        run_and_report(ctx, &tx_flow(ctx.tier, 8, 32, d), &mut out);
+        run_and_report(ctx, &tx_flow(ctx.tier, 8, 8, d), &mut out);
+        run_and_report(ctx, &rx(ctx.tier, 2, vec![MSS], d), &mut out);
+        run_and_report(ctx, &rx(ctx.tier, 4, vec![1, MSS], d), &mut out);
+        run_and_report(ctx, &close(ctx.tier, d), &mut out);
+        run_and_report(ctx, &mtu(ctx.tier, 700, None, None, 1, ctx.tier.pick(5, 7)), &mut out);
+    }
     out.rule = "C02: every plan of <= d drop/dup/delay deviations (d below the retransmission limit, hence fair) must complete within the horizon; loss-free runs additionally satisfy the promptness clause".into();
     out.assumptions.push("liveness is decided as bounded liveness: virtual-time horizon 20 s with the inactivity timeout configured to 30 s".into());
     out
